@@ -100,7 +100,7 @@ def build_c(mod, proof, ix):
         contracts = {k: {kk: vv for kk, vv in v.items() if kk == "pragmas"} for k, v in contracts.items()}
     em = emit.Emitter(ix, cfg, contracts)
     root_cnames = []
-    for rn in getattr(mod, "force_records", ()):
+    for rn in (proof.force_records if getattr(proof, "force_records", None) is not None else getattr(mod, "force_records", ())):
         rec = em.find_record(rn)
         if rec is None:
             raise ExtractionError("record %s not found" % rn)
@@ -118,10 +118,17 @@ def build_c(mod, proof, ix):
         qn, d = ix.find_function(q, np, sig)
         root_cnames.append(em.need_function(d))
     text = [getattr(proof, "defines_c", "") or "", getattr(mod, "defines_c", ""), '#include "xc.h"']
-    for h in mod.spec_headers:
+    # a proof may bring its own boundary (second translation unit of a property): spec_headers / pre_c / post_struct_c attributes
+    def pm(name, default=""):
+        v = getattr(proof, name, None)
+        return v if v is not None else getattr(mod, name, default)
+    for h in pm("spec_headers", ()):
         text.append('#include "%s"' % h)
-    text.append(getattr(mod, "pre_c", ""))
-    text.append(em.text(mid=getattr(mod, "post_struct_c", "")))
+    if getattr(proof, "umap", False):
+        from .units import common as _common
+        text.append(_common.UMAP_C)
+    text.append(pm("pre_c"))
+    text.append(em.text(mid=pm("post_struct_c")))
     text.append(proof.extra_c)
     if proof.harness is not None:
         text.append(proof.harness)
